@@ -156,7 +156,8 @@ def run(chk, replay=None):
     chk.cov["application_datagrams_carried"] = st["data"]
     chk.cov["diverged_executions"] = s["ndiv"]
     chk.cov["first_divergences"] = s["divs"][:3]
-    chk.cov["exhaustive"] = not replay
+    # quick samples the wrong-key/truncated no-effect steps; thorough replays every transition of the tour
+    chk.cov["exhaustive"] = (not quick) and not replay
     chk.cov["rule"] = (
         "scripted: transition tour of the bounded Ice model (every transition reached by a shortest path; the no-effect "
         "transitions of one state packed into one behaviour), replayed on a real QXmppIceConnection bound on 127.0.0.1 with a "
